@@ -231,7 +231,7 @@ func (p *Pipe) render() (string, error) {
 		for j, c := range p.MU {
 			var body string
 			var ok bool
-			if c.Op == "noread" {
+			if c.Op == "noread" || c.Op == "notfunc" || c.Op == "arity2" {
 				body, ok = "7", true
 			} else if c.Op == "topsize" {
 				body, ok = renderTerm("l", c, ts+1+j, p)
@@ -240,6 +240,14 @@ func (p *Pipe) render() (string, error) {
 			}
 			if !ok || c.Op == "lazy" || c.Op == "lazyk" || c.Op == "multiUse" {
 				return "", fmt.Errorf("bad multiUse consumer %q", c.Op)
+			}
+			switch c.Op {
+			case "notfunc":
+				parts = append(parts, "c"+strconv.Itoa(j)+": 3")
+				continue
+			case "arity2":
+				parts = append(parts, "c"+strconv.Itoa(j)+": (x,y)->x")
+				continue
 			}
 			parts = append(parts, "c"+strconv.Itoa(j)+": l->"+body)
 		}
@@ -303,7 +311,7 @@ func (p *Pipe) script(host HostTables) (*Script, error) {
 // closure-calling stages (those whose callback can carry cost/probe/fail wrappers)
 func hasClosure(op string) bool {
 	switch op {
-	case "top", "skip", "plus", "sum", "size", "string", "first", "last", "single", "lazy", "lazyk", "contains", "topsize", "noread", "multiUse":
+	case "top", "skip", "plus", "sum", "size", "string", "first", "last", "single", "lazy", "lazyk", "contains", "topsize", "noread", "notfunc", "arity2", "multiUse":
 		return false
 	}
 	return true
